@@ -126,6 +126,8 @@ def reduce_1d(reduce_func_name: str, arr, skipna: bool = True, n_threads: int = 
 
     if n_threads is None:
         n_threads = n_threads_from_array_length(len(arr))
+    # never create empty chunks: they have no first element to start from
+    n_threads = max(1, min(n_threads, len(arr)))
 
     if n_threads == 1:
         result = output_converter(
